@@ -205,6 +205,18 @@ func trustedImmutableKind(t types.Type) (bool, string) {
 				return true, "array of arrays of scalars"
 			}
 		}
+		if st, isSt := u.Elem().Underlying().(*types.Struct); isSt {
+			// an array of structs of scalars is a value like an array of scalars (no references inside)
+			all := true
+			for i := 0; i < st.NumFields(); i++ {
+				if _, isB := st.Field(i).Type().Underlying().(*types.Basic); !isB {
+					all = false
+				}
+			}
+			if all {
+				return true, "array of structs of scalars"
+			}
+		}
 	case *types.Slice:
 		if _, ok := u.Elem().Underlying().(*types.Basic); ok {
 			return true, "slice of scalars (only read)"
